@@ -66,9 +66,34 @@ def rule_owner(ctx, res):
     sites = fs_sites(model)
     res.stats['fs_call_sites'] = len(sites)
     legit_found = False
+    # helpers extracted from a sanctioned writer (functions the pinned tree
+    # does not have, reachable only from it) belong to it
+    from .. import norm
+    part_of = {}
+    for wq in WRITER_WHITELIST:
+        if model.has_func(wq):
+            for g in norm.new_helpers(ctx, model.func(wq)):
+                callers = [c for c in model.functions.values()
+                           if any(t is g or getattr(t, 'qual', None) == g.qual
+                                  for (_n, t) in norm.callees(
+                                      model, c, list(c.node.body)))]
+                if all(c.qual == wq or c.qual in part_of for c in callers):
+                    part_of[g.qual] = wq
+    from .. import normalise as _nz
+    base_funcs = _nz.load_baseline()['functions']
+    called = set()
+    for c in model.functions.values():
+        for (_n, t) in norm.callees(model, c, list(c.node.body)):
+            called.add(t.qual)
     for s in sites:
         f = s['func']
         where = f.qual if f else s['module'].name + ':<module>'
+        where = part_of.get(where, where)
+        if f is not None and f.qual not in base_funcs and \
+                f.qual not in called and base_funcs:
+            # a helper the normaliser inlined at every call site: its body
+            # is analysed there
+            continue
         mod = f.module if f else s['module']
         loc = mod.loc(s['call'])
         inst = '{}({})'.format(s['name'], unparse(_path_arg(s['call']) or
@@ -270,10 +295,11 @@ def rule_order(ctx, res):
                           isinstance(c.func.value, ast.Name) and
                           c.func.value.id == handle]
                 ok = bool(writes)
+                from_temp = derived_names(f.node, set(temp_names))
                 for c in writes:
                     srcs = {x.id for a in c.args for x in walk_own(a)
                             if isinstance(x, ast.Name)}
-                    if c.func.attr != 'write' or not (srcs & temp_names):
+                    if c.func.attr != 'write' or not (srcs & from_temp):
                         ok = False
                 n_inst += 1
                 res.check(ok, 'R-C11-order', qual, inst + ' payload',
@@ -391,44 +417,68 @@ def rule_label(ctx, res):
     qual = 'pico8.game.file:to_file'
     f = model.func(qual)
     cfg = cfg_of(f)
-    # kwargs['label_fname'] = filename guarded by os.path.exists(filename)
-    stores = []
-    for n in model.own_nodes(f.node):
-        if isinstance(n, ast.Assign):
-            for t in n.targets:
-                if (isinstance(t, ast.Subscript) and
-                        isinstance(t.slice, ast.Constant) and
-                        t.slice.value == 'label_fname'):
-                    stores.append(n)
-    if not stores:
-        res.violation('R-C04-label', qual, 'label reuse',
-                      'existing destination is not reused as label source',
-                      f.loc)
-    for st in stores:
-        tests = []
-        p = getattr(st, '_parent', None)
-        while p is not None and p is not f.node:
-            if isinstance(p, ast.If):
-                tests.append(p.test)
-            p = getattr(p, '_parent', None)
-        has_exists = any(
-            model.ext_name(f.module, c.func) == 'os.path.exists'
-            for t in tests for c in walk_own(t) if isinstance(c, ast.Call))
-        has_none = any(
-            isinstance(c, ast.Compare) and any(
-                isinstance(o, ast.Is) for o in c.ops)
-            and 'label_fname' in ast.unparse(c)
-            for t in tests for c in walk_own(t))
-        val_is_fname = isinstance(st.value, ast.Name) and \
-            st.value.id in f.params()
-        res.check(has_exists and has_none and val_is_fname, 'R-C04-label',
-                  qual, 'label_fname := destination iff exists and not given',
+    # kwargs['label_fname'] := filename iff the caller gave none and the
+    # destination exists -- decided per path of to_file
+    from ..absint.symbody import SymBody
+    u = ast.unparse
+    fname = f.params()[1] if len(f.params()) > 1 else 'filename'
+    n_paths = 0
+    problems = []
+    for p in SymBody(ctx, f).run(f.node.body):
+        enc = [k for k, e in enumerate(p.events) if e[0] == 'call' and
+               isinstance(e[1], ast.Call) and
+               isinstance(e[1].func, ast.Attribute) and
+               e[1].func.attr == 'to_file']
+        if not enc:
+            continue
+        # os.path.exists(None) raises: a path on which the file name was
+        # tested for existence cannot also have it be None
+        texts = [(u(t), v) for (t, v) in p.conds]
+        if any(tt == 'os.path.exists({})'.format(fname)
+               for (tt, _v) in texts) and any(
+                (tt == fname + ' is None' and v) or
+                (tt == fname + ' is not None' and not v)
+                for (tt, v) in texts):
+            continue
+        n_paths += 1
+        given = exists = None
+        for i, (t, v) in enumerate(p.conds):
+            if p.conds.at[i] > enc[0]:
+                continue
+            tt = u(t)
+            if tt.startswith("kwargs.get('label_fname'") and \
+                    tt.endswith(' is None'):
+                given = not v
+            elif tt.startswith("kwargs.get('label_fname'") and \
+                    tt.endswith(' is not None'):
+                given = v
+            elif tt == 'os.path.exists({})'.format(fname):
+                exists = v
+        st = [e for e in p.events[:enc[0]] if e[0] == 'store' and
+              u(e[1]) == 'kwargs' and u(e[2]) == "'label_fname'"]
+        eff = [u(e[3]) for e in st
+               if not u(e[3]).startswith("kwargs.get('label_fname'")]
+        want = (given is False and exists is True)
+        if want and eff != [fname]:
+            problems.append('no label given and the destination exists, but '
+                            'label_fname is set to {}'.format(eff or 'nothing'))
+        if not want and eff and not (given is None or exists is None):
+            problems.append('label_fname is overwritten with {} although {}'
+                            .format(eff, 'the caller gave one' if given
+                                    else 'the destination does not exist'))
+        if (given is None or (given is False and exists is None)) and eff:
+            problems.append('label_fname is set without testing that none '
+                            'was given and that the destination exists')
+    if n_paths == 0:
+        res.undecided('R-C04-label', qual, 'label reuse',
+                      'no path reaches the encoder call', f.loc)
+    else:
+        res.check(not problems, 'R-C04-label', qual,
+                  'label_fname := destination iff exists and not given',
                   'destination reused as label only when it exists and the '
-                  'caller gave none',
-                  'label source selection changed: exists-test={} '
-                  'none-test={} value-is-filename={}'.format(
-                      has_exists, has_none, val_is_fname),
-                  f.module.loc(st))
+                  'caller gave none ({} paths)'.format(n_paths),
+                  'label source selection changed: ' +
+                  '; '.join(sorted(set(problems))[:2]), f.loc)
     q2 = 'pico8.game.formatter.p8png:P8PNGFormatter.to_file'
     g = model.func(q2)
     cfg2 = cfg_of(g)
